@@ -46,11 +46,13 @@ def _exact8(x, what):
 
 
 # ------------------------------------------------------------------ synthetic grammars
-def synthetic_grammar(rng, headmode, n_lex=None, n_all=None, multi=True, unary=True):
-    """-> dict(lex, allc, B, U, roots): categories are atoms A..F; B[(x,y)] / U[x] lists of CombinatorResult"""
+def synthetic_grammar(rng, headmode, n_lex=None, n_all=None, multi=True, unary=True, twins=False):
+    """-> dict(lex, allc, B, U, roots): categories are atoms A..F; B[(x,y)] / U[x] lists of CombinatorResult.
+    twins: the categories differ pairwise only in a feature that the English grammar ignores ([nb], [X]) - a table grammar
+    tells them apart, and the parser has to go by what the grammar it was given says"""
     from depccg.cat import Category
     from depccg.types import CombinatorResult
-    atoms = [Category.parse(c) for c in 'A B C D E F'.split()]
+    atoms = [Category.parse(c) for c in ('A A[nb] A[X] B B[nb] B[X]' if twins else 'A B C D E F').split()]
     K = n_lex or rng.randint(2, 3)
     C = n_all or rng.randint(K, 5)
     lex, allc = atoms[:K], atoms[:C]
